@@ -133,7 +133,7 @@ def build_harness(cfg, name="grv", sources=None, extra_flags=""):
             os.remove(old)
         except OSError:
             pass
-    hcommon = common.replace("-fno-exceptions", "").replace("-fno-rtti", "")
+    hcommon = common.replace("-fno-exceptions", "")
     od = os.path.join(BUILD, "hobj", "%s-%s-%s" % (name, cfg, hkey))
     for old in glob.glob(os.path.join(BUILD, "hobj", "%s-%s-*" % (name, cfg))):
         shutil.rmtree(old, ignore_errors=True)
@@ -273,7 +273,12 @@ def tlc(module, cfg, workers=None, simulate=None, depth=None, seed=None, env=Non
         k = out.find("Semantic errors")
         if k < 0:
             k = out.find("***Parse Error***")
-        msg = out[k:k + 1500] if k >= 0 else out[-2000:]
+        if k < 0:
+            k2 = out.find("Reason:")
+            k1 = out.find("Error:")
+            msg = (out[k1:k1 + 600] + "\n...\n" + out[k2:k2 + 600]) if k2 >= 0 else out[-2000:]
+        else:
+            msg = out[k:k + 1500]
         raise Broken("TLC failed rc=%s on %s/%s:\n%s" % (rc, module, cfg, msg))
     if r.states == 0 and not simulate and r.violation is None:
         raise Broken("TLC reported no states on %s/%s:\n%s" % (module, cfg, out[-3000:]))
